@@ -272,6 +272,17 @@ func dominatesD(a, b ssa.Instruction, depth int) bool {
 	}
 	// a inside a new helper that always executes it: its call sites must dominate b
 	if sites := liftSites(a); len(sites) > 0 && mustExecute(a) {
+		// only the call sites inside b's function (or its spliced helpers) order a before b
+		var rel []ssa.Instruction
+		for _, s := range sites {
+			if TopFunc(s.Parent()) == TopFunc(b.Parent()) {
+				rel = append(rel, s)
+			}
+		}
+		if len(rel) == 0 {
+			return false
+		}
+		sites = rel
 		for _, s := range sites {
 			if _, isCall := s.(*ssa.Call); !isCall {
 				return false // go/defer: no ordering with the caller's later code
@@ -327,6 +338,13 @@ type Walk struct {
 	Target func(ssa.Instruction) bool
 	// Edge: may the walk take successor idx of block b? nil = always.
 	Edge func(b *ssa.BasicBlock, idx int) bool
+	// Ctx: the function under analysis. A walk that starts inside a new helper
+	// continues only after the helper's call sites inside Ctx (nil: all sites).
+	Ctx *ssa.Function
+
+	leftVia   []*ssa.Return // returns of the start function reached by the last search
+	innerRets []*ssa.Return // returns of the helper currently being entered
+	callExits map[*ssa.Call][]*ssa.Return
 }
 
 // FromInstr searches from just after instruction i.
@@ -345,24 +363,97 @@ type wnode struct {
 }
 
 func (w *Walk) search(b0 *ssa.BasicBlock, idx0 int) (ssa.Instruction, []*ssa.BasicBlock) {
+	w.leftVia = nil
+	w.callExits = nil
 	hit, path, reachedReturn := w.searchIn(b0, idx0, 0)
 	if hit != nil {
 		return hit, path
 	}
-	// the walk started inside a new helper and can leave it: continue after its call sites
+	// the walk started inside a new helper and can leave it: continue after its call
+	// sites, knowing the constant results of the returns through which it left
+	// (`return "", false` makes the caller's `if !ok` decidable)
 	if reachedReturn {
 		if info := helperOf(b0.Parent()); info != nil {
+			rets := w.leftVia
 			for _, s := range info.sites {
-				if _, isCall := s.(*ssa.Call); !isCall {
+				call, isCall := s.(*ssa.Call)
+				if !isCall {
 					continue
 				}
-				if h, pth := w.search(s.Block(), instrIndex(s)+1); h != nil {
-					return h, pth
+				if w.Ctx != nil && TopFunc(s.Parent()) != TopFunc(w.Ctx) {
+					continue
+				}
+				for _, ret := range rets {
+					w2 := &Walk{Avoid: w.Avoid, Target: w.Target, Ctx: w.Ctx}
+					outer := w.Edge
+					decide := returnEdge(call, ret)
+					w2.Edge = func(b *ssa.BasicBlock, i int) bool {
+						if outer != nil && !outer(b, i) {
+							return false
+						}
+						allowed, _ := decide(b, i)
+						return allowed
+					}
+					if h, pth := w2.search(s.Block(), instrIndex(s)+1); h != nil {
+						return h, pth
+					}
 				}
 			}
 		}
 	}
 	return nil, nil
+}
+
+// returnEdge: for a call of a helper that returned through ret, may the
+// branch b→Succs[i] be taken? decided=false when the branch does not depend on
+// constant results of that return.
+func returnEdge(call *ssa.Call, ret *ssa.Return) func(b *ssa.BasicBlock, i int) (allowed, decided bool) {
+	env := func(v ssa.Value) (constant.Value, bool) {
+		idx := 0
+		switch x := v.(type) {
+		case *ssa.Extract:
+			if x.Tuple != ssa.Value(call) {
+				return nil, false
+			}
+			idx = x.Index
+		case *ssa.Call:
+			if x != call {
+				return nil, false
+			}
+		default:
+			return nil, false
+		}
+		if idx < len(ret.Results) {
+			if cst, ok := ReturnValue(ret, idx).(*ssa.Const); ok && cst.Value != nil {
+				return cst.Value, true
+			}
+		}
+		return nil, false
+	}
+	return func(b *ssa.BasicBlock, i int) (bool, bool) {
+		ifi := BlockIf(b)
+		if ifi == nil {
+			return true, false
+		}
+		if v, nonNil, ok := ErrNilTest(ifi); ok {
+			if ex, isE := v.(*ssa.Extract); isE && ex.Tuple == ssa.Value(call) && ex.Index < len(ret.Results) {
+				rv := ReturnValue(ret, ex.Index)
+				if IsNilConst(rv) {
+					return i != nonNil, true
+				}
+				// a non-constant error on this exit: unknown
+				return true, false
+			}
+		}
+		c, ok := Eval(ifi.Cond, env)
+		if !ok || c.Kind() != constant.Bool {
+			return true, false
+		}
+		if constant.BoolVal(c) {
+			return i == 0, true
+		}
+		return i == 1, true
+	}
 }
 
 // searchIn is the intraprocedural search; calls of new helpers are entered
@@ -399,9 +490,14 @@ func (w *Walk) searchIn(b0 *ssa.BasicBlock, idx0 int, depth int) (ssa.Instructio
 		}
 		for k := start; k < len(n.b.Instrs); k++ {
 			in := n.b.Instrs[k]
-			if _, isRet := in.(*ssa.Return); isRet && helperOf(in.Parent()) != nil {
+			if rt, isRet := in.(*ssa.Return); isRet && helperOf(in.Parent()) != nil {
 				// the return of a spliced helper is not an exit of the function under analysis
 				reachedReturn = true
+				if depth == 0 {
+					w.leftVia = append(w.leftVia, rt)
+				} else {
+					w.innerRets = append(w.innerRets, rt)
+				}
 				continue
 			}
 			if w.Target != nil && w.Target(in) {
@@ -412,7 +508,11 @@ func (w *Walk) searchIn(b0 *ssa.BasicBlock, idx0 int, depth int) (ssa.Instructio
 				break
 			}
 			if h := syncHelperCallee(in); h != nil && depth < 4 && len(h.Blocks) > 0 {
+				save := w.innerRets
+				w.innerRets = nil
 				hit, _, ret := w.searchIn(h.Blocks[0], 0, depth+1)
+				exits := w.innerRets
+				w.innerRets = save
 				if hit != nil {
 					return hit, mkPath(), false
 				}
@@ -420,9 +520,20 @@ func (w *Walk) searchIn(b0 *ssa.BasicBlock, idx0 int, depth int) (ssa.Instructio
 					stopped = true // every path through the helper passes an Avoid instruction
 					break
 				}
+				// remember through which returns the helper can be left (un-avoided): the
+				// caller's branches on its constant results are pruned accordingly
+				if call, isCall := in.(*ssa.Call); isCall {
+					if w.callExits == nil {
+						w.callExits = map[*ssa.Call][]*ssa.Return{}
+					}
+					w.callExits[call] = exits
+				}
 			}
-			if _, isRet := in.(*ssa.Return); isRet {
+			if rt, isRet := in.(*ssa.Return); isRet {
 				reachedReturn = true
+				if depth == 0 {
+					w.leftVia = append(w.leftVia, rt)
+				}
 			}
 		}
 		if stopped {
@@ -432,10 +543,43 @@ func (w *Walk) searchIn(b0 *ssa.BasicBlock, idx0 int, depth int) (ssa.Instructio
 			if w.Edge != nil && !w.Edge(n.b, si) {
 				continue
 			}
+			if !w.allowedByExits(n.b, si) {
+				continue
+			}
 			q = append(q, &wnode{b: s, from: n})
 		}
 	}
 	return nil, nil, reachedReturn
+}
+
+// allowedByExits prunes a branch on the constant results of an entered helper
+// when none of the returns through which the helper could be left allows it.
+func (w *Walk) allowedByExits(b *ssa.BasicBlock, si int) bool {
+	if len(w.callExits) == 0 || BlockIf(b) == nil {
+		return true
+	}
+	for call, rets := range w.callExits {
+		if call.Parent() != b.Parent() || len(rets) == 0 {
+			continue
+		}
+		anyDecided, anyAllows := false, false
+		for _, rt := range rets {
+			allowed, decided := returnEdge(call, rt)(b, si)
+			if !decided {
+				anyAllows = true
+				anyDecided = false
+				break
+			}
+			anyDecided = true
+			if allowed {
+				anyAllows = true
+			}
+		}
+		if anyDecided && !anyAllows {
+			return false
+		}
+	}
+	return true
 }
 
 // PathString renders a block path with source lines.
@@ -1266,6 +1410,13 @@ func SliceBack(v ssa.Value, visit func(ssa.Value) bool) {
 			}
 		case *ssa.UnOp:
 			if x.Op == token.MUL {
+				// a field of a new struct type set once in its literal (a captured variable turned into a field)
+				if fa, ok := x.X.(*ssa.FieldAddr); ok && IsNewType(fa.X.Type()) {
+					if val := newStructField(fa.X, fa.Field); val != nil {
+						rec(val, d+1)
+						return
+					}
+				}
 				if cell := resolveCell(x.X); cell != nil && isLocalCell(cell) {
 					for _, s := range storesTo(cell) {
 						rec(s, d+1)
@@ -1666,6 +1817,16 @@ func newStructField(base ssa.Value, idx int) ssa.Value {
 			if b.Op != token.MUL {
 				return nil
 			}
+			// a load of the local variable that holds the pointer (`s := &T{…}` captured by closures)
+			if cell := resolveCell(b.X); cell != nil && isLocalCell(cell) {
+				if _, holdsPtr := derefT1(cell.Type()).Underlying().(*types.Pointer); holdsPtr {
+					if sts := storesTo(cell); len(sts) == 1 {
+						base = sts[0]
+						continue
+					}
+					return nil
+				}
+			}
 			base = b.X
 		case *ssa.Parameter:
 			a := helperParamArg(b)
@@ -1713,4 +1874,12 @@ func newStructField(base ssa.Value, idx int) ssa.Value {
 		return nil
 	}
 	return val
+}
+
+// derefT1 strips one pointer level.
+func derefT1(t types.Type) types.Type {
+	if pt, ok := t.Underlying().(*types.Pointer); ok {
+		return pt.Elem()
+	}
+	return t
 }
